@@ -808,6 +808,9 @@ def re_closed_recipes(draw, tier):
         rec["p2"] = draw(st.lists(POS, min_size=1, max_size=5))
     if kind == "uniform" and pk == "scalar" and draw(st.integers(0, 5)) == 0:
         rec["unit"] = draw(st.sampled_from(["float", "int"]))
+    elif kind == "uniform" and pk == "scalar" and draw(st.integers(0, 3)) == 0:
+        # special widths (unit-width intervals away from 0 are what shortcuts for the standard interval must not catch)
+        rec["p2"] = draw(st.sampled_from([1.0, 1.0, 2.0, 0.5]))
     if api != "function":
         rec["jit"] = draw(st.integers(0, 31)) == 0
     return rec
